@@ -229,3 +229,26 @@ def check_c12_hosts(prop, tier, replay):
                   assumptions=["NodeHost level: the client programs and fault schedules of the C01 runs; a handle "
                                "counts as hanging when nothing arrived 5 s after the requested deadline and the "
                                "NodeHost that issued it is still running"])
+
+
+def check_c08_joiners(prop, tier, replay):
+    """third engine of C08: on-disk replicas that join quietly, are brought up to date by a streamed snapshot whose
+    index is ahead of the last user update, snapshot themselves and restart (nhsim member mode, on-disk only)"""
+    n, tr, rounds = (4, 2, 14) if tier == "quick" else (12, 6, 20)
+    batches = [{"first": k * tr, "traces": tr, "mode": "member", "dur": 0, "rounds": rounds, "sm": "ondisk",
+                "store": "tan" if k % 4 == 3 else None} for k in range(n)]
+
+    def env(b, seed, out):
+        e = _snap_env(b, seed, out)
+        e["VERIF_SM"] = b["sm"]
+        return e
+    return tv_run(prop, tier, replay, harness_dirs=HARNESS, pkg=".", test="TestVerifNhsim",
+                  trace_module="MemberTrace", tag="MB-REPORT", count_tag="MB-COUNT",
+                  batches=batches, env_of=env, mc=(),
+                  level="model_checking", stats_tag="NHSTATS", panic_ok=True, max_workers=8,
+                  build_name="nhsim", merge_into_existing=True,
+                  what="an on-disk replica that joined through a streamed snapshot, took a snapshot of its own and "
+                       "restarted did not come back (panic), or its membership differs from the rule table",
+                  sig_of=lambda op, f: "C08:joiners:%s" % op,
+                  assumptions=["on-disk state machines only: members join while nothing is written (the snapshot they "
+                               "receive has Index > OnDiskIndex), apply one more non-update entry, snapshot and restart"])
